@@ -603,8 +603,11 @@ def TagSt (s : St) : Prop := s = .tagName ∨ s = .beforeAttrName ∨ s = .after
 def AfterNameSt (s : St) : Prop := s = .attrName ∨ s = .afterAttrName
 
 /-- the tokenizer is right after a tag name, between attributes, or after a quoted value; the tag name of an end
-    tag inside RCDATA/RAWTEXT/script is still being matched against the element (`textEndName`) -/
-def TagT (t : T) : Prop := TagSt t.st ∨ ∃ k, t.st = .textEndName k ∧ t.name.reverse = t.lastStart
+    tag inside RCDATA/RAWTEXT/script is still being matched against the element (`textEndName`); or it is at the end
+    of an unquoted attribute value (`attrValueUnq`: the engine leaves an unquoted value only before white space or
+    `>`, which end the value for the tokenizer as well) -/
+def TagT (t : T) : Prop :=
+  TagSt t.st ∨ (∃ k, t.st = .textEndName k ∧ t.name.reverse = t.lastStart) ∨ t.st = .attrValueUnq
 
 /-- states from which `>` emits the tag -/
 def GtT (t : T) : Prop :=
@@ -678,6 +681,10 @@ theorem step_textEndName_slash (t : T) (k : Nat) (h : t.st = .textEndName k) (ha
     view (step 4 t 47) = { view t with st := .selfClosingStart } := by
   simp [step, h, view, isWs, ha]
 
+theorem step_attrValueUnq_ws (t : T) (c : Nat) (h : t.st = .attrValueUnq) (hc : isWs c = true) :
+    view (step 4 t c) = { view t with st := .beforeAttrName } := by
+  simp [step, h, view, hc]
+
 /-- white space in a tag (after the name, between attributes): only the state may change, and it stays `TagT` -/
 theorem run_ws_tag (w : Bytes) (t : T) (h : TagT t) (hw : allWs w = true) :
     ∃ st', TagT (run t w) ∧ (w ≠ [] → st' = .beforeAttrName) ∧ view (run t w) = { view t with st := st' } := by
@@ -686,11 +693,12 @@ theorem run_ws_tag (w : Bytes) (t : T) (h : TagT t) (hw : allWs w = true) :
   | cons c w =>
     simp only [allWs, List.all_cons, Bool.and_eq_true] at hw
     have h1 : view (step 4 t c) = { view t with st := .beforeAttrName } := by
-      rcases h with (h | h | h) | ⟨k, h, ha⟩
+      rcases h with (h | h | h) | ⟨k, h, ha⟩ | h
       · exact step_tagName_ws t c h hw.1
       · rw [step_beforeAttrName_ws t c h hw.1]; simp [view, h]
       · exact step_afterAttrValueQ_ws t c h hw.1
       · exact step_textEndName_ws t c k h ha hw.1
+      · exact step_attrValueUnq_ws t c h hw.1
     have h2 : run t (c :: w) = step 4 t c := by rw [run_cons, run_ws_before w _ (view_st h1) hw.2]
     refine ⟨.beforeAttrName, ?_, fun _ => rfl, ?_⟩
     · rw [h2]; exact Or.inl (Or.inr (Or.inl (view_st h1)))
@@ -824,11 +832,12 @@ theorem tagEndCtx_state (c : Ctx) : (tagEndCtx c).state ≠ .htmlCmt ∧ (tagEnd
 theorem step_gt_all (t : T) (h : GtT t) :
     (step 4 t 62).st = (if t.isEnd then .data else nextSt t.name.reverse) ∧
     (step 4 t 62).lastStart = (if t.isEnd then t.lastStart else t.name.reverse) := by
-  rcases h with ((h | h | h) | ⟨k, h, ha⟩) | h | h | h | h
+  rcases h with ((h | h | h) | ⟨k, h, ha⟩ | hu) | h | h | h | h
   · exact step_gt t (Or.inl h)
   · exact step_gt t (Or.inr (Or.inl h))
   · exact step_gt t (Or.inr (Or.inr (Or.inl h)))
   · exact step_textEndName_gt t k h ha
+  · simp [step, hu, isWs, emitTag_st, emitTag_lastStart]
   · exact step_gt t (Or.inr (Or.inr (Or.inr (Or.inl h))))
   · exact step_gt t (Or.inr (Or.inr (Or.inr (Or.inr (Or.inl h)))))
   · exact step_gt t (Or.inr (Or.inr (Or.inr (Or.inr (Or.inr h)))))
@@ -1438,7 +1447,7 @@ theorem rel_bodyClose (c : Ctx) (t : T) (c0 : Nat) (nm : Bytes) (hs : c.state = 
   obtain ⟨hd, hsp, hl, hst⟩ := h
   have hv := view_body_close t c0 nm (by rw [hst]; exact nextSt_special hsp) hc hn
   simp only [Rel, InTag]
-  refine ⟨trivial, ⟨okName_nil, ?_⟩, Or.inr ⟨kOf t.st, view_st hv, ?_⟩⟩
+  refine ⟨trivial, ⟨okName_nil, ?_⟩, Or.inr (Or.inl ⟨kOf t.st, view_st hv, ?_⟩)⟩
   · have : (run t (60 :: 47 :: c0 :: nm)).isEnd = true := (view_isEnd hv :)
     simpa using this
   · have h1 : (run t (60 :: 47 :: c0 :: nm)).name.reverse = (c0 :: nm).map lower := (view_name hv :)
@@ -1485,12 +1494,16 @@ theorem tTag_slash (c : Ctx) (w rest : Bytes) (hw : allWs w = true) :
   simp only [tTag, e, drop_ws_append, e2]
   simp [attrNameCtx, e3, lower, isUpperAlpha]
 
-theorem step_slash (t : T) (h : TagT t) : view (step 4 t 47) = { view t with st := .selfClosingStart } := by
-  rcases h with (h | h | h) | ⟨k, h, ha⟩
-  · simp [step, h, view, isWs]
-  · simp [step, h, view, isWs]
-  · simp [step, h, view, isWs]
-  · exact step_textEndName_slash t k h ha
+/-- `/` in a tag starts the self-closing syntax; at the end of an unquoted value it belongs to the value -/
+theorem step_slash (t : T) (h : TagT t) :
+    view (step 4 t 47) = { view t with st := .selfClosingStart } ∨
+    (t.st = .attrValueUnq ∧ view (step 4 t 47) = view t) := by
+  rcases h with (h | h | h) | ⟨k, h, ha⟩ | h
+  · left; simp [step, h, view, isWs]
+  · left; simp [step, h, view, isWs]
+  · left; simp [step, h, view, isWs]
+  · left; exact step_textEndName_slash t k h ha
+  · right; exact ⟨h, by simp [step, h, view, isWs]⟩
 
 theorem rel_bareEnd (c : Ctx) (t : T) (w : Bytes) (hs : c.state = .afterName) (h : Rel c t) (hw : allWs w = true) :
     Rel (tagEndCtx c) (run t (w ++ [62])) := by
@@ -1531,13 +1544,18 @@ theorem rel_selfClose (c c' : Ctx) (t : T) (w : Bytes) (hs : c.state = .tag) (h 
   simp only [Rel, hs] at h
   obtain ⟨_, hin, hst⟩ := h
   obtain ⟨st', hst', _, hv⟩ := run_ws_tag w t hst hw
-  have h1 := step_slash (run t w) hst'
-  have hv2 : view (run t (w ++ [47])) = { view t with st := .selfClosingStart } := by
-    rw [run_append, run_cons, run_nil, h1, hv]
   have e : w ++ [47, 62] = (w ++ [47]) ++ [62] := by simp
   rw [e, run_append]
-  exact rel_gt c' _ (InTag_view c c' t _ he (view_isEnd hv2 :) (view_name hv2 :) hin)
-    (Or.inr (Or.inr (Or.inr (Or.inr (view_st hv2)))))
+  rcases step_slash (run t w) hst' with h1 | ⟨hu, h1⟩
+  · have hv2 : view (run t (w ++ [47])) = { view t with st := .selfClosingStart } := by
+      rw [run_append, run_cons, run_nil, h1, hv]
+    exact rel_gt c' _ (InTag_view c c' t _ he (view_isEnd hv2 :) (view_name hv2 :) hin)
+      (Or.inr (Or.inr (Or.inr (Or.inr (view_st hv2)))))
+  · have hv2 : view (run t (w ++ [47])) = { view t with st := st' } := by
+      rw [run_append, run_cons, run_nil, h1, hv]
+    have hst2 : (run t (w ++ [47])).st = .attrValueUnq := by rw [view_st hv2, ← view_st hv]; exact hu
+    exact rel_gt c' _ (InTag_view c c' t _ he (view_isEnd hv2 :) (view_name hv2 :) hin)
+      (Or.inl (Or.inr (Or.inr hst2)))
 
 /-! ### bookkeeping for special elements -/
 
@@ -1955,6 +1973,103 @@ theorem stepBW_text_cmt_s (pre txt rest : Bytes) (c c1 : Ctx) (w : Nat) (b : Byt
   simp only [stepBW, hrw, h1, hd, isComment, beq_self_eq_true, if_true, ht4]
   simp [h, List.append_assoc, h4]
 
+/-! ### unquoted attribute values (static text only) -/
+
+/-- a byte of an unquoted attribute value: not white space or `>` (which end the value), and none of
+    `" ' < = \`` (for which the engine reports ErrBadHTML) -/
+def unqByte (b : Nat) : Bool :=
+  !isWs b && b != 62 && b != 34 && b != 39 && b != 60 && b != 61 && b != 96
+
+/-- white space or `>`: what ends an unquoted value -/
+def unqEnd (b : Nat) : Bool := isWs b || b == 62
+
+/-- the only facts used about the generated tables `delimEnds_SpaceOrTagEnd` and `unquotedBad` -/
+theorem delimEnds_unq_spec (b : Nat) : delimEnds_SpaceOrTagEnd.contains b = unqEnd b := by
+  rw [Bool.eq_iff_iff]; simp [delimEnds_SpaceOrTagEnd, unqEnd, isWs]; omega
+
+theorem unquotedBad_spec (b : Nat) :
+    unquotedBad.contains b = (b == 34 || b == 39 || b == 60 || b == 61 || b == 96) := by
+  rw [Bool.eq_iff_iff]; simp [unquotedBad]; omega
+
+theorem unqByte_spec {b : Nat} (h : unqByte b = true) :
+    isWs b = false ∧ b ≠ 62 ∧ b ≠ 34 ∧ b ≠ 39 ∧ b ≠ 60 ∧ delimEnds_SpaceOrTagEnd.contains b = false ∧
+    unquotedBad.contains b = false := by
+  simp only [unqByte, Bool.and_eq_true, Bool.not_eq_true', bne_iff_ne, ne_eq] at h
+  obtain ⟨⟨⟨⟨⟨⟨h1, h2⟩, h3⟩, h4⟩, h5⟩, h6⟩, h7⟩ := h
+  refine ⟨h1, h2, h3, h4, h5, ?_, ?_⟩
+  · rw [delimEnds_unq_spec]; simp [unqEnd, h1, h2]
+  · rw [unquotedBad_spec]; simp [h3, h4, h5, h6, h7]
+
+theorem indexAny_set_none (set : List Nat) : ∀ (s : Bytes), (∀ b ∈ s, set.contains b = false) → indexAny set s = none
+  | [], _ => rfl
+  | c :: s, h => by
+    have h1 := h c (by simp)
+    simp only [indexAny, h1, Bool.false_eq_true, if_false,
+      indexAny_set_none set s (fun d hd => h d (by simp [hd]))]
+    rfl
+
+theorem indexAny_set_append (set : List Nat) (d : Nat) (hd : set.contains d = true) :
+    ∀ (s r : Bytes), (∀ b ∈ s, set.contains b = false) → indexAny set (s ++ d :: r) = some s.length
+  | [], r, _ => by simp only [List.nil_append, indexAny, hd, if_true]; rfl
+  | c :: s, r, h => by
+    have h1 := h c (by simp)
+    simp only [List.cons_append, indexAny, h1, Bool.false_eq_true, if_false,
+      indexAny_set_append set d hd s r (fun d hd => h d (by simp [hd]))]
+    rfl
+
+theorem tBeforeValue_unq (c : Ctx) (w : Bytes) (x : Nat) (rest : Bytes) (hw : allWs w = true) (hx : unqByte x = true) :
+    tBeforeValue c (w ++ x :: rest) = ({ c with state := .attr, delim := .spaceOrTagEnd }, w.length) := by
+  obtain ⟨hxw, _, h34, h39, _, _, _⟩ := unqByte_spec hx
+  have e := eatWhiteSpace_append w (x :: rest) hw (by simp [headNot, hxw])
+  simp [tBeforeValue, e, h34, h39]
+
+theorem cat_attr_unq (c : Ctx) (v : Bytes) (d : Nat) (rest : Bytes) (hdl : c.delim = .spaceOrTagEnd)
+    (hv : v.all unqByte = true) (hd : unqEnd d = true) :
+    contextAfterText c (v ++ d :: rest) = (attrCloseCtx c v, v.length) := by
+  have hv1 : ∀ b ∈ v, delimEnds_SpaceOrTagEnd.contains b = false :=
+    fun b hb => (unqByte_spec ((List.all_eq_true.1 hv) b hb)).2.2.2.2.2.1
+  have hv2 : ∀ b ∈ v, unquotedBad.contains b = false :=
+    fun b hb => (unqByte_spec ((List.all_eq_true.1 hv) b hb)).2.2.2.2.2.2
+  have hl : (v.length == (v ++ d :: rest).length) = false := by simp
+  have ht : (v ++ d :: rest).take v.length = v := by simp
+  have hi := indexAny_set_append delimEnds_SpaceOrTagEnd d (by rw [delimEnds_unq_spec]; exact hd) v rest hv1
+  simp only [contextAfterText, hdl, delimEnds, hi, Option.getD_some, ht, indexAny_set_none unquotedBad v hv2, hl,
+    attrCloseCtx]
+  simp
+
+/-! tokenizer -/
+
+theorem step_beforeAttrValue_unq (t : T) (x : Nat) (h : t.st = .beforeAttrValue) (hx : unqByte x = true) :
+    view (step 4 t x) = { view t with st := .attrValueUnq } := by
+  obtain ⟨hxw, h62, h34, h39, _, _, _⟩ := unqByte_spec hx
+  simp [step, h, view, hxw, h62, h34, h39]
+
+theorem step_attrValueUnq_unq (t : T) (x : Nat) (h : t.st = .attrValueUnq) (hx : unqByte x = true) :
+    view (step 4 t x) = view t := by
+  obtain ⟨hxw, h62, _, _, _, _, _⟩ := unqByte_spec hx
+  simp [step, h, view, hxw, h62]
+
+theorem run_attrValueUnq : ∀ (v : Bytes) (t : T), t.st = .attrValueUnq → v.all unqByte = true → view (run t v) = view t
+  | [], _, _, _ => rfl
+  | x :: v, t, h, hv => by
+    simp only [List.all_cons, Bool.and_eq_true] at hv
+    have h1 := step_attrValueUnq_unq t x h hv.1
+    rw [run_cons, run_attrValueUnq v _ (by rw [view_st h1]; exact h) hv.2, h1]
+
+theorem rel_unq (c : Ctx) (t : T) (w v : Bytes) (hs : c.state = .beforeValue) (h : Rel c t) (hw : allWs w = true)
+    (hv : v.all unqByte = true) (hne : v ≠ []) :
+    Rel (attrCloseCtx { c with state := .attr, delim := .spaceOrTagEnd } v) (run t (w ++ v)) := by
+  simp only [Rel, hs] at h
+  obtain ⟨_, hin, hst, _⟩ := h
+  obtain ⟨x, v', rfl⟩ := List.exists_cons_of_ne_nil hne
+  simp only [List.all_cons, Bool.and_eq_true] at hv
+  have h1 := step_beforeAttrValue_unq t x hst hv.1
+  have hv2 : view (run t (w ++ x :: v')) = { view t with st := .attrValueUnq } := by
+    rw [run_append, run_ws_beforeValue w t hst hw, run_cons, run_attrValueUnq v' _ (view_st h1) hv.2, h1]
+  obtain ⟨p1, p2, p3⟩ := attrCloseCtx_proj { c with state := .attr, delim := .spaceOrTagEnd } (x :: v')
+  simp only [Rel, p1]
+  exact ⟨p2, InTag_view c _ t _ p3 (view_isEnd hv2 :) (view_name hv2 :) hin, Or.inr (Or.inr (view_st hv2))⟩
+
 /-! ### the grammar of simple static texts -/
 
 /-- `Simple js en st dl s out`: `s` is a simple static text for an engine context in state `st` with delimiter `dl`
@@ -2029,6 +2144,11 @@ inductive Simple (js : Bool) : Bytes → State → Delim → Bytes → Bytes →
       Simple js en .attr d rest out se → Simple js en .beforeValue .none (w ++ quoteOf d :: rest) (w ++ quoteOf d :: out) se
   /-- white space after `=` up to the end of the text node -/
   | beforeWs (en w : Bytes) : allWs w = true → w ≠ [] → Simple js en .beforeValue .none w w .beforeValue
+  /-- (e, macro) an unquoted attribute value in static text: `ws* value`, the value made of bytes other than white
+      space and `> " ' < = \``, followed by white space or `>` (which end the value on both sides) -/
+  | unq {se : State} (en w v rest out : Bytes) : allWs w = true → v.all unqByte = true → v ≠ [] →
+      headIs unqEnd rest = true → Simple js en .tag .none rest out se →
+      Simple js en .beforeValue .none (w ++ v ++ rest) (w ++ v ++ out) se
   /-- (a) inside a quoted attribute value, text without the quote up to the end of the text node -/
   | val (en : Bytes) (d : Delim) (v : Bytes) : d = .dq ∨ d = .sq → (∀ b ∈ v, b ≠ quoteOf d) → v ≠ [] →
       Simple js en .attr d v v .attr
@@ -2484,6 +2604,49 @@ theorem loop_simple {js : Bool} {en : Bytes} {st : State} {dl : Delim} {s out : 
     · intro f' hf'
       exact good_nil' _ c _ f' w b (rel_beforeWs c t w' hst hr hw) (need_pos _ _ _ hf')
         (Inv_next pre w' c c w b hinv (by simp [hst])) hst
+  | @unq se en w' v rest out hw hv hne hhd hrest ih =>
+    intro c t pre f w b hst hdl hr hf hinv hen hlt hjs
+    have hce : c.elemName = en := hen (by simp [hst]) (by simp [hst])
+    obtain ⟨hdn, hsp, hrc⟩ := intag_facts c t _ hr (by simp [hst, InTagState])
+      (fun h => hlt (hce ▸ h) (by simp [InTagState]))
+    have hdn := hdn (by simp [hst])
+    obtain ⟨x, v', rfl⟩ := List.exists_cons_of_ne_nil hne
+    have hx : unqByte x = true := by simp only [List.all_cons, Bool.and_eq_true] at hv; exact hv.1
+    obtain ⟨d, rest', rfl, hd⟩ : ∃ d rest', rest = d :: rest' ∧ unqEnd d = true := by
+      cases rest with
+      | nil => simp [headIs] at hhd
+      | cons d r => exact ⟨d, r, rfl, by simpa [headIs] using hhd⟩
+    have hv60 : ∀ y ∈ x :: v', y ≠ 60 := fun y hy => (unqByte_spec ((List.all_eq_true.1 hv) y hy)).2.2.2.2.1
+    have hlen : (w' ++ x :: v' ++ d :: rest').length = w'.length + v'.length + rest'.length + 2 := by simp; omega
+    have hf0 : 2 * rest'.length + 4 + 1 ≤ f := by
+      simp only [need, hlen] at hf; simp at hf; omega
+    have hrc1 := or_sub (s' := w') hrc (by mem_tac)
+    have hlt' : memKey specialElements en = true → ∀ y ∈ d :: rest', y ≠ 60 :=
+      fun h y hy => hlt h (by simp [InTagState]) y (by revert y; mem_tac)
+    rw [List.append_assoc] at hjs hsp ⊢
+    rw [List.append_assoc]
+    obtain ⟨p1, p2, p3⟩ := attrCloseCtx_proj ({ c with state := .attr, delim := .spaceOrTagEnd } : Ctx) (x :: v')
+    refine chunk0M pre w' (x :: v' ++ d :: rest') c { c with state := .attr, delim := .spaceOrTagEnd } t f
+      (2 * rest'.length + 4) w b (x :: v' ++ out) (by simp) ?_ ?_ (by simp [hst]) (by simp) (Or.inr (by simp [hst]))
+      hf0 hinv.1 ?_
+    · rw [cat_plain' c _ hdn hsp (by simp)]
+      simp only [transition, hst]
+      exact tBeforeValue_unq c w' x (v' ++ d :: rest') hw hx
+    · exact rewriteStep_intag pre _ _ c _ w b (by simp [hst]) (by simp [hst]) hrc1
+    · intro f1 hf1
+      refine chunk0 (pre ++ w') (x :: v') (d :: rest') ({ c with state := .attr, delim := .spaceOrTagEnd } : Ctx)
+        (attrCloseCtx { c with state := .attr, delim := .spaceOrTagEnd } (x :: v')) (run t w') f1 .tag w b out
+        (by simp) ?_ ?_ (by simp) (by simp [p1]) (Or.inl (by simp)) (by simp only [need]; simp; omega)
+        (by have := hinv.1; simp; omega) ?_
+      · exact cat_attr_unq _ (x :: v') d rest' rfl hv hd
+      · exact rewriteStep_intag (pre ++ w') (x :: v') _ ({ c with state := .attr, delim := .spaceOrTagEnd } : Ctx) _
+          w b (by simp) (by simp) (Or.inr hv60)
+      · intro f2 hf2
+        refine ih _ _ _ f2 w b p1 p2 ?_ hf2
+          ⟨by have := hinv.1; simp; omega, hinv.2.1, fun h0 => by simp [p1] at h0⟩
+          (fun _ _ => p3.trans hce) (fun h _ => hlt' h) (hjs_next (hjs_next hjs))
+        rw [← run_append]
+        exact rel_unq c t w' (x :: v') hst hr hw hv (by simp)
   | val en d v hd hv hne =>
     intro c t pre f w b hst hdl hr hf hinv hen hlt hjs
     have hce : c.elemName = en := hen (by simp [hst]) (by simp [hst])
@@ -2898,7 +3061,7 @@ theorem rel_inv_attr (c : Ctx) (t : T) (h : Rel c t) (hst : t.st = .attrValueDq 
   · exact (hne _ h.2.2 (by simp) (by simp)).elim
   · have := nextSt_special h.2.1
     rcases this with h' | h' | h' <;> exact (hne _ (h.2.2.2.trans h') (by simp) (by simp)).elim
-  · rcases h.2.2 with (h' | h' | h') | ⟨k, h', _⟩ <;> exact (hne _ h' (by simp) (by simp)).elim
+  · rcases h.2.2 with (h' | h' | h') | ⟨k, h', _⟩ | h' <;> exact (hne _ h' (by simp) (by simp)).elim
   · exact (hne _ h.2.2.1 (by simp) (by simp)).elim
   · rcases h.2.2.1 with h' | h' <;> exact (hne _ h' (by simp) (by simp)).elim
   · exact (hne _ h.2.2.1 (by simp) (by simp)).elim
@@ -3181,6 +3344,22 @@ example : ((scanD {} (exScriptOpen ++ exScriptCR)).1.state, (run {} (exScriptOpe
     (State.text, St.data) := by decide +kernel
 
 
+/-- `<td colspan=2>x`: an unquoted attribute value in static text -/
+def exUnq : Bytes := [60, 116, 100, 32, 99, 111, 108, 115, 112, 97, 110, 61, 50, 62, 120]
+example : B "<td colspan=2>x" = exUnq := by decide +kernel
+
+theorem ex_unq (js : Bool) : Simple js [] .text .none exUnq exUnq .text :=
+  Simple.openTag [] [] 116 [100] _ _ (by decide) (by decide) (by decide) (by decide) (by decide)
+    (Simple.attrNm _ [32] [99, 111, 108, 115, 112, 97, 110] _ _ (by decide) (by decide) (by decide) (by decide)
+      (by decide)
+      (Simple.eq _ [] _ _ (by decide)
+        (Simple.unq _ [] [50] [62, 120] _ (by decide) (by decide) (by decide) (by decide)
+          (Simple.tagEnd _ [] [] [120] _ (by decide) (fun h => absurd h (by decide))
+            (Simple.text _ [120] (by decide) (by decide))))))
+
+theorem ex_unq_rel : ∃ c', scan {} exUnq = some (c', exUnq) ∧ c'.state = .text ∧ Rel c' (run {} exUnq) :=
+  layer3_simple false {} {} _ _ _ rel_init (ex_unq _) (fun h => absurd h (by decide)) (fun h => absurd h (by decide))
+
 /-! ### what is not covered, and why
 
 Excluded because the correspondence is FALSE there (each checked with `#eval` on the two definitions):
@@ -3202,7 +3381,9 @@ Repaired in the library after this analysis (fix 3cb107b): CR was missing from `
 element. `sepByte` now is `>`, HTML white space or `/`, the same bytes on both sides (`tagEndSeparators_spec`), and
 `ex_script_cr_rel` is the example.
 
-Not covered although probably true (not needed / not attempted): unquoted attribute values; inside the grammar, a text
+Not covered although probably true (not needed / not attempted): a text node that ends inside an unquoted attribute
+value (unquoted values are covered only when they are complete static text, constructor `unq`; the engine refuses
+actions in them); inside the grammar, a text
 node starting with an attribute name (`<a ` + `href=`: the grammar depends only on the engine context, and the engine's
 `tag` state also covers the position right after a tag name; `layer3_tag_attr` covers this case with the extra
 hypothesis that the tokenizer is between attributes);
